@@ -428,6 +428,11 @@ func c08Any(c *engine.Ctx, in []byte, args map[string]string) {
 		if u.gt == css.AtRuleGrammar || u.gt == css.BeginAtRuleGrammar || u.gt == css.BeginRulesetGrammar || u.gt == css.DeclarationGrammar || u.gt == css.CustomPropertyGrammar {
 			texts = append(texts, u.vals...) // Values() is documented for these units only
 		}
+		if u.gt == css.ErrorGrammar {
+			// a parse error in mid-stream: Values() holds the tokens the parser could not place; they too must be
+			// tokens of the input that have not been reported before
+			texts = append(texts, u.vals...)
+		}
 		for _, t := range texts {
 			if t.data == "" || t.tt == css.WhitespaceToken && t.data == " " {
 				continue
